@@ -1143,9 +1143,10 @@ def degenerate_range_loop(U, kname, members, width=None, hyp=None):
             return None
         g0 = s.paths[0].guard
         test = I.neg(g0[-1]) if g0 else None
-        names = {sym(members[0]): sp.Symbol('lower'), sym(members[1]): sp.Symbol('upper')}
-        if len(members) > 2 and hyp is None:
-            names[sym(members[2])] = sp.Symbol('width')
+        if hyp is not None:
+            names = {sym(k): sp.Symbol('lower' if v == lo else 'upper') for k, v in hyp.items() if v in (lo, hi)}
+        else:
+            names = {sym(members[0]): sp.Symbol('lower'), sym(members[1]): sp.Symbol('upper'), sym(members[2]): sp.Symbol('width')}
         draws = [z for z in I.all_atoms(test) if z.func.__name__.startswith(('uitofp_', 'sitofp_'))]
         names.update({z: sp.Symbol('rng()') for z in draws[:1]})
         return ('never-returns', 'the loop through %s is only left when `%s` fails; for a degenerate range lower == upper (width 0) the '
@@ -1264,34 +1265,33 @@ def check_distributions(ctx, U):
     URD = 'uniform_real_distribution'
     inst = '%s constructor [%s]' % (URD, U.cfg)
     su = U.summary(R, inst, 'K_urd_ctor', RANDOM)
-    sl = sh = None
-    ctor_members = {}
+    # The constructor may keep the bounds themselves or anything computed from them (the width, a scale): what is required of it is
+    # only that every member is a function of the two bounds; operator() is then judged on the composition constructor o operator(),
+    # which must be lower + k * (upper - lower) - a constructor that swaps, drops or mis-derives a bound shows up there.
+    ctor_members = None          # float instantiation: member slot -> value in (lo, hi)
     if su is not None:
         n += 1
         try:
             fl = {k: su.value(k) for k in su.slots() if k.startswith('d[')}
-            los = [k for k, t in fl.items() if t == lo]
-            his = [k for k, t in fl.items() if t == hi]
-            extra = {k: t for k, t in fl.items() if k not in los + his}
-            foreign = [k for k, t in extra.items() if only_reads(t, ('lo', 'hi'))]
-            if len(los) == 1 and len(his) == 1 and not foreign:
-                sl, sh = los[0], his[0]
-                ctor_members = extra
-                ctx.ok(R, inst, 'l=%s u=%s%s' % (sl, sh, '; further members determined by the bounds: %s' % {k: str(v) for k, v in extra.items()}
-                                                if extra else ''), RANDOM)
-            elif len(los) != 1 or len(his) != 1:
-                ctx.violation(R, inst, 'constructor stores %s; the two bounds are not each stored exactly once' % {k: str(v) for k, v in fl.items()},
-                              RANDOM, key=key(URD, 'ctor'))
-            else:
+            foreign = [k for k, t in fl.items() if only_reads(t, ('lo', 'hi'))]
+            opaque = [k for k, t in fl.items() if I.opaque_atoms(t)]
+            if foreign:
                 ctx.undecided(R, inst, 'members %s depend on something other than the two bounds' % foreign, RANDOM)
+            elif opaque or not fl:
+                ctx.undecided(R, inst, 'members %s' % {k: str(v) for k, v in fl.items()}, RANDOM)
+            else:
+                ctor_members = fl
+                ctx.ok(R, inst, 'members determined by the bounds: %s (their use is decided with operator())'
+                       % {k: str(v) for k, v in fl.items()}, RANDOM)
         except Undecided as e:
             ctx.undecided(R, inst, str(e), RANDOM)
-    ctor_members_d = {}
+    ctor_members_d = None
     sud = U.summary(R, '%s<double> constructor [%s]' % (URD, U.cfg), 'K_urd_ctor_d', RANDOM)
     if sud is not None:
         try:
             fd = {k: sud.value(k) for k in sud.slots() if k.startswith('d[')}
-            ctor_members_d = {k: t for k, t in fd.items() if t not in (lo, hi) and not only_reads(t, ('lo', 'hi'))}
+            if fd and not any(only_reads(t, ('lo', 'hi')) or I.opaque_atoms(t) for t in fd.values()):
+                ctor_members_d = fd
         except Undecided:
             pass
     GEN32 = dict(span=1024, mn=16, mx=1040, conv='uitofp_32')
@@ -1302,21 +1302,19 @@ def check_distributions(ctx, U):
                                      ('K_urd_gen64_d', 'uniform_real_distribution<double>(RkvGen64)', GEN64, 8),
                                      ('K_urd_pcg', 'uniform_real_distribution<float>(pcg32)', 'pcg', 4)):
         inst = '%s [%s]' % (what, U.cfg)
-        if sl is not None:
-            cm_ = ctor_members if off_hi == 4 else ctor_members_d
-            hyp_ = {'d[0]': lo, 'd[%d]' % off_hi: hi}
-            hyp_.update({k: v for k, v in cm_.items() if not unknown_atoms(v, ())})
-            lp = degenerate_range_loop(U, kname, ('d[0]', 'd[%d]' % off_hi) + tuple(sorted(cm_)), hyp=hyp_)
+        cm = ctor_members if off_hi == 4 else ctor_members_d
+        if cm is not None:
+            lp = degenerate_range_loop(U, kname, tuple(sorted(cm)), hyp=cm)
             if isinstance(lp, tuple):
                 ctx.violation(R, inst, lp[1], RANDOM, key=key(URD + '::operator()', lp[0]))
             elif lp:
                 ctx.undecided(R, inst, lp, RANDOM)
         s = U.summary(R, inst, kname, RANDOM, banned_key=key(URD, 'impure'), max_unroll=LOOP_LIMIT)
-        if s is None or sl is None:
+        if s is None or cm is None:
             continue
         n += 1
         try:
-            l, u = sym('d[0]'), sym('d[%d]' % off_hi)
+            l, u = lo, hi
             probs, und = [], []
             # members written by operator() itself: state that survives into the next call
             written = set()
@@ -1326,7 +1324,7 @@ def check_distributions(ctx, U):
             for g, t0 in s.values('ret'):
                 rets += I.cases(t0, g)
             for g, t in rets:
-                members = sorted(str(z) for z in t.free_symbols if str(z).startswith('d[') and z not in (l, u))
+                members = sorted(str(z) for z in t.free_symbols if str(z).startswith('d['))
                 carried = [m_ for m_ in members if m_ in written]
                 if carried:
                     probs.append(('stale-state', 'on the path `%s` the returned value is computed from member %s, which operator() itself '
@@ -1334,23 +1332,22 @@ def check_distributions(ctx, U):
                                   'call history instead of on l, u and this call\'s generator alone - e.g. a scale cached for one engine '
                                   'type is reused for an engine with another range, and the values leave [l, u]' % (show_guard(g), ', '.join(carried))))
                     continue
-                if members:
-                    # a member that only the constructor writes: substitute what it stored (a function of the bounds)
-                    cm = ctor_members if off_hi == 4 else ctor_members_d
-                    if all(m_ in cm for m_ in members):
-                        t = t.xreplace({sym(m_): cm[m_].xreplace({lo: l, hi: u}) for m_ in members})
-                    else:
-                        und.append('result reads member(s) %s' % members)
-                        continue
                 bad = only_reads(t, ('d[', 'g['))
                 if bad:
                     probs.append(('impure', 'reads %s besides the distribution members and the generator' % bad))
+                # every member is written by the constructor only: substitute what it stored (a function of the bounds)
+                if all(m_ in cm for m_ in members):
+                    t = t.xreplace({sym(m_): cm[m_] for m_ in members})
+                else:
+                    und.append('result reads member(s) %s, which the constructor does not set' % [m_ for m_ in members if m_ not in cm])
+                    continue
                 P = sp.Poly(sp.expand(t), l, u)
                 co = {m: c for m, c in P.terms()}
                 cu = co.pop((0, 1), 0)
                 cl = co.pop((1, 0), 0)
                 if co or not I.equal(cl, 1 - cu):
-                    probs.append(('form', 'result %s is not l + k * (u - l)' % t))
+                    probs.append(('form', 'result %s (constructor and operator() composed, lo / hi = the bounds given to the constructor) is not '
+                                  'lo + k * (hi - lo)' % t))
                     continue
                 if gen != 'pcg':
                     span, mn, v = gen['span'], gen['mn'], sym('g[0]')
@@ -1371,13 +1368,25 @@ def check_distributions(ctx, U):
                                           'the factor %.4g' % (used, span, how, float(span / used))))
                     elif any(I.equal(k * span, I.atom(gen['conv'], v - m2)) for m2 in (0, gen['mx'])):
                         probs.append(('min', 'k = %s does not subtract the generator minimum' % cu))
+                    elif r.is_Rational and r < 0:
+                        probs.append(('direction', 'result is lo + k * (hi - lo) with k = %s <= 0: the values run from the lower bound away '
+                                      'from the upper bound (the width enters with the wrong sign) and leave [l, u]' % cu))
+                    elif sp.cancel((k - 1) / want).is_Rational:
+                        probs.append(('offset', 'result is lo + k * (hi - lo) with k = %s >= 1: the draw starts at the upper bound instead '
+                                      'of the lower one, so the values lie in [u, u + (u - l)]' % cu))
                     else:
                         und.append('k = %s' % cu)
                 else:
                     raw = sr.value('ret').xreplace({sym('d[0]'): sym('g[0]'), sym('d[8]'): sym('g[8]')}) if sr is not None else None
                     want = I.atom('uitofp_32', raw)
                     k = sp.cancel(cu / want) if raw is not None else None
-                    if k is None or not k.is_Rational:
+                    if k is not None and k.is_Rational and k < 0:
+                        probs.append(('direction', 'result is lo + k * (hi - lo) with k = %s * rng() <= 0: the values run from the lower bound '
+                                      'away from the upper bound and leave [l, u]' % k))
+                    elif raw is not None and sp.cancel((cu - 1) / want).is_Rational:
+                        probs.append(('offset', 'result is lo + k * (hi - lo) with k = 1 + %s * rng(): the draw starts at the upper bound '
+                                      'instead of the lower one' % sp.cancel((cu - 1) / want)))
+                    elif k is None or not k.is_Rational:
                         und.append('k = %s' % cu)
                     elif not (sp.Rational(1, 2 ** 32) <= k <= sp.Rational(1, 2 ** 32 - 2 ** 9)):
                         probs.append(('span', 'k = rng() * %s; expected rng() / (max - min) with max - min = 2^32 - 1' % k))
